@@ -94,7 +94,7 @@ theorem identNotFound_inv {st : BSt} (ln col : Nat) (orig : Str) (h : BInv st) :
   · exact h
 
 theorem identStep_ok (h : Hdr) (st : BSt) (ln col : Nat) (orig line : Str) (indent : Nat) (hinv : BInv st)
-    (hb : st.block = none) : ∃ st', identStep h st ln col orig line indent = .ok st' ∧ BInv st' := by
+    (_hb : st.block = none) : ∃ st', identStep h st ln col orig line indent = .ok st' ∧ BInv st' := by
   unfold identStep
   split
   · exact ⟨_, rfl, identNotFound_inv _ _ _ hinv⟩
